@@ -665,5 +665,13 @@ func TestReplay(t *testing.T) {
 	kit.Replay(t, map[string]kit.Replayer{
 		"roundtrip": replayRoundTrip,
 		"hostile":   replayHostile,
+		"stored": func(raw gojson.RawMessage) *kit.Failure {
+			var c StoredCase
+			if err := gojson.Unmarshal(raw, &c); err != nil {
+				return kit.Failf("HARNESS", "%v", err)
+			}
+			f, _ := evalStored(c)
+			return f
+		},
 	})
 }
